@@ -565,6 +565,22 @@ Proof.
     + rewrite H1, H2, H3. cbn [bind]. repeat split; lia.
 Qed.
 
+(* without folder CRCs the per-folder default digests are all undefined / zero *)
+Lemma default_digests_nodigest nums : forall fs,
+  length nums = length fs -> no_folder_digest fs -> Forall (fun n => 0 <= n) nums ->
+  default_digests nums fs = (repeat false (Z.to_nat (sumZ nums)), repeat 0 (Z.to_nat (sumZ nums))).
+Proof.
+  induction nums as [|n nr IH]; intros fs Hl Hd Hn; [reflexivity|].
+  destruct fs as [|f fr]; [discriminate|]. inversion Hd as [|? ? Hf Hfr]; subst.
+  inversion Hn as [|? ? Hn0 Hnr]; subst.
+  assert (Hs : 0 <= sumZ nr).
+  { clear - Hnr. induction Hnr; [rewrite sumZ_nil; lia|rewrite sumZ_cons; lia]. }
+  cbn [default_digests]. rewrite (IH fr) by (cbn [length] in Hl; auto; lia).
+  rewrite Hf, andb_false_r, sumZ_cons.
+  replace (Z.to_nat (n + sumZ nr)) with (Z.to_nat n + Z.to_nat (sumZ nr))%nat by lia.
+  rewrite !repeat_app. reflexivity.
+Qed.
+
 Lemma nodigest_result dd (dg : list Z) total :
   any_true dd = false -> zlen dd = total -> zlen dg = total ->
   repeat false (Z.to_nat total) = dd /\ repeat 0 (Z.to_nat total) = mask_digests dg dd.
@@ -614,6 +630,7 @@ Proof.
   destruct (sum_bound_each lim _ Hnn ltac:(lia)) as [Hbound Hsum0].
   pose proof (existsb_lim_false lim _ Hbound) as Hex.
   pose proof (sub_digest_counts_nodigest _ fs Hlen Hnd) as Hcnt.
+  pose proof (default_digests_nodigest _ fs Hlen Hnd Hnn) as Hdef.
   unfold parse_substreams. cbv zeta. unfold norm_sub.
   (* stage A: NUM_UNPACK_STREAM, present iff some count differs from 1 *)
   (* the three writer stages, by cases *)
@@ -639,7 +656,7 @@ Proof.
     cbn [rd_pid bind]. rewrite Hex.
     bstep (rd_sub_sizes_wr _ fs _ x (0 :: r) Hsz Hx).
     cbn [rd_pid bind]. rewrite Hcnt. cbn [bind length Nat.eqb].
-    destruct (lim <? sumZ (s_nums s)) eqn:El; [lia|].
+    destruct (lim <? sumZ (s_nums s)) eqn:El; [lia|]. rewrite Hdef.
     destruct (nodigest_result _ (s_digests s) (sumZ (s_nums s)) Ed ltac:(lia) ltac:(lia)) as [R1 R2].
     rewrite R1, R2. reflexivity.
   - (* CRC only *)
@@ -657,7 +674,7 @@ Proof.
     apply Ok_inj in Hb. subst b. apply Ok_inj in Hc. subst c.
     stageA.
     all: cbn [rd_pid bind]; rewrite Hex; cbn [bind]; rewrite Hcnt; cbn [bind length Nat.eqb].
-    all: destruct (lim <? sumZ (s_nums s)) eqn:El; [lia|].
+    all: destruct (lim <? sumZ (s_nums s)) eqn:El; [lia|]; rewrite Hdef.
     all: destruct (nodigest_result _ (s_digests s) (sumZ (s_nums s)) Ed ltac:(lia) ltac:(lia)) as [R1 R2].
     all: rewrite R1, R2; reflexivity.
 Qed.
